@@ -149,4 +149,20 @@ def strides (R : List Int) : Nat → List Nat → List (List Int × Bool)
 
 end Spec
 
+/-! ## walks with cancellation: the caller cancels a context at any moment (the query's own context is
+    `q.ctx`); a fetch under a dead context sends nothing and yields `context canceled` (Hist.sessExec) -/
+
+inductive StepX where
+  | base (s : Step)
+  | cancel (c : Nat)
+  deriving Repr
+
+def stepX (ppOf : Int → Nat → Nat) (w : W) : StepX → W
+  | .base s => step ppOf w s
+  | .cancel c => { w with env := { w.env with cancelled := c :: w.env.cancelled } }
+
+def execX (ppOf : Int → Nat → Nat) : W → List StepX → W
+  | w, [] => w
+  | w, s :: rest => execX ppOf (stepX ppOf w s) rest
+
 end Paging.Walk
